@@ -235,9 +235,13 @@ class InRamPolicySupporter(policy_supporter.PolicySupporter):
 
     if self.study_config.is_single_objective:
       # Single metric: Sort and take top N.
-      count = count or 1  # Defaults to 1.
-      labels = converter.to_labels(warped_trials).squeeze()
-      sorted_idx = np.argsort(-labels)  # np.argsort sorts in ascending order.
+      labels = converter.to_labels(warped_trials).reshape(-1)
+      # np.argsort sorts in ascending order.
+      sorted_idx = np.argsort(-labels, kind='stable')
+      if count is None:
+        # Unset: all trials tied for the best value (see the docstring).
+        count = int(np.sum(labels == labels[sorted_idx[0]]))
+      count = count or 1
       return list(np.asarray(trials)[sorted_idx[:count]])
     else:
       algorithm = multimetric.FastParetoOptimalAlgorithm()
